@@ -37,4 +37,96 @@ fn c05_or_kernels__def() {
     assert!(ok && v == (a | b | c), "n-ary OR");
 }
 
+// C05 U1(c) -- bounded stand-in, native: the FULL path And::execute / Or::execute on real arrays, every combination of
+// TRUE / FALSE / NULL for 1, 2 and 3 arguments, flat and constant layouts, against SQL's three-valued truth table.
+// (The symbolic full-path harness exceeds CBMC's reach: Array construction + executor did not finish in 15 minutes.)
+fn and3(xs: &[Option<bool>]) -> Option<bool> {
+    if xs.iter().any(|x| *x == Some(false)) {
+        Some(false)
+    } else if xs.iter().any(|x| x.is_none()) {
+        None
+    } else {
+        Some(true)
+    }
+}
+fn or3(xs: &[Option<bool>]) -> Option<bool> {
+    if xs.iter().any(|x| *x == Some(true)) {
+        Some(true)
+    } else if xs.iter().any(|x| x.is_none()) {
+        None
+    } else {
+        Some(false)
+    }
+}
+
+fn truth_table(arity: usize, constant_first: Option<Option<bool>>) {
+    use crate::arrays::scalar::ScalarValue;
+    use crate::buffer::buffer_manager::DefaultBufferManager;
+    use crate::util::iter::TryFromExactSizeIterator;
+    let vals = [Some(true), Some(false), None];
+    // all rows of the truth table in one batch
+    let rows = 3usize.pow(arity as u32);
+    let mut cols: Vec<Vec<Option<bool>>> = vec![Vec::new(); arity];
+    for r in 0..rows {
+        let mut k = r;
+        for c in 0..arity {
+            cols[c].push(vals[k % 3]);
+            k /= 3;
+        }
+    }
+    if let Some(cv) = constant_first {
+        cols[0] = vec![cv; rows];
+    }
+    let mut arrays = Vec::new();
+    for (c, col) in cols.iter().enumerate() {
+        if c == 0 && constant_first.is_some() {
+            let v = match constant_first.unwrap() {
+                Some(b) => ScalarValue::Boolean(b),
+                None => ScalarValue::Null,
+            };
+            let mut arr = Array::new_constant(&DefaultBufferManager, &v, rows).unwrap();
+            if constant_first.unwrap().is_none() {
+                // a typed NULL constant
+                arr = Array::new_null(&DefaultBufferManager, DataType::boolean(), rows).unwrap();
+            }
+            arrays.push(arr);
+        } else {
+            arrays.push(Array::try_from_iter(col.clone()).unwrap());
+        }
+    }
+    let batch = Batch::from_arrays(arrays).unwrap();
+    for (name, is_and) in [("AND", true), ("OR", false)] {
+        let mut out = Array::new(&DefaultBufferManager, DataType::boolean(), rows).unwrap();
+        if is_and {
+            And::execute(&(), &batch, &mut out).unwrap();
+        } else {
+            Or::execute(&(), &batch, &mut out).unwrap();
+        }
+        for r in 0..rows {
+            let args: Vec<Option<bool>> = (0..arity).map(|c| cols[c][r]).collect();
+            let expected = if is_and { and3(&args) } else { or3(&args) };
+            let got = {
+                let v = out.get_value(r).unwrap();
+                match v {
+                    crate::arrays::scalar::BorrowedScalarValue::Null => None,
+                    crate::arrays::scalar::BorrowedScalarValue::Boolean(b) => Some(b),
+                    _ => panic!("unexpected value"),
+                }
+            };
+            assert!(got == expected, "{name}{args:?} = {got:?}, SQL three-valued logic says {expected:?} (constant first argument: {constant_first:?})");
+        }
+    }
+}
+
+#[test]
+fn c05_and_or__three_valued_truth_table__nat() {
+    for arity in 1..=3 {
+        truth_table(arity, None);
+    }
+    for cv in [Some(true), Some(false), None] {
+        truth_table(2, Some(cv));
+        truth_table(3, Some(cv));
+    }
+}
+
 include!("/verif/build/kani-gen/boolean.playback.rs");
